@@ -256,6 +256,8 @@ type c07Pred struct {
 	R     *c07Pred `json:"r,omitempty"`
 	Paren bool     `json:"paren,omitempty"`
 	BQ    bool     `json:"backquoted_alias,omitempty"` // the alias is written `alias` in HAVING
+	// CaseWrap: the atom is written CASE WHEN <atom> THEN 1 ELSE 0 END = 1 (same truth value, another evaluator)
+	CaseWrap bool `json:"case_wrapped,omitempty"`
 }
 
 func (p *c07Pred) sql(tight, upper bool) string {
@@ -270,6 +272,9 @@ func (p *c07Pred) sql(tight, upper bool) string {
 			lhs = p.Expr.sql(tight, upper)
 		}
 		s = lhs + " " + p.Cmp + " " + p.Lit
+		if p.CaseWrap {
+			s = "CASE WHEN " + s + " THEN 1 ELSE 0 END = 1"
+		}
 	case "and":
 		s = p.L.sql(tight, upper) + " AND " + p.R.sql(tight, upper)
 	case "or":
@@ -757,7 +762,11 @@ func c07GenHaving(r *rand.Rand, c *c07Case, bs []*c07Batch) *c07Pred {
 	}
 	switch r.Intn(10) {
 	case 0, 1, 2, 3:
-		return atom()
+		a := atom()
+		// a HAVING that consists of one CASE comparison (CASE combined with AND/OR in HAVING is outside the
+		// statement's quantifier and is not generated)
+		a.CaseWrap = r.Intn(4) == 0
+		return a
 	case 4, 5:
 		return &c07Pred{K: "and", L: atom(), R: atom()}
 	case 6, 7:
